@@ -1,15 +1,31 @@
 """C02 -- Readers observe only whole committed snapshots.
 
-Proof      : coq/Props/C02.v over Model/Reader.v (readers on top of the commit machine + file plane): for every
-             interleaving of any number of readers with writers that commit, fail, get interrupted, crash and roll
-             back, a read resolves the pointer once, at an instant between its start and its end, and every file of
-             the resolved version is present (write-once files, rollback deletes only never-committed files);
-             pointer history only grows (per-handle monotonicity); one transaction = one flip (atomic visibility).
+Proof      : coq/Props/C02.v over Model/Reader.v (readers on top of the commit machine + file plane), for every
+             interleaving of any number of read calls with writers that commit, fail, get interrupted, crash and roll
+             back.  The reader machine is run with the number of pointer resolutions per call that the translator COUNTS
+             on the source of every read API (translator/gen_readres.py -> Gen/GenReadRes.v, read_budget = 1):
+               C02_snapshot_read   a call that has returned resolved the pointer at an instant between its start and its
+                                   end, no file read failed, the files it read are exactly those of the version current at
+                                   that instant and -- for any (write-once) file contents -- its rows are that snapshot's rows;
+               C02_read_in_progress the same invariant while the call is running;
+               C02_api_single_resolution  every read API (scan, to_pandas, scan_batches, iter_records, iter_pandas,
+                                   row_count) resolves the pointer exactly once on every returning path (source count);
+               C02_snapshot_read_needs_single_resolution  with two resolutions per call the statement is FALSE (witness),
+                                   with one it holds;
+               C02_monotone        a call that started after another one had returned resolved the pointer at an index
+                                   that is not smaller (successive reads through one handle never move backwards);
+               C02_txn_atomic      one attempt of Transaction.commit reaches MetadataManager.commit exactly once (source
+                                   count; one flip per commit: GenCommit.v), no transaction flips twice, and the operations
+                                   visible after i flips are the initial ones + the transactions of exactly those i flips.
+             File CONTENTS are not modelled (names are fresh, files write-once: C04 / C16); what rows each real API makes
+             of a version's files is judged by the oracle below (and C12 / C13).
 Tie        : real read APIs (scan, parallel scan, scan without checksum verification, scan_batches, iter_records,
-             row_count) run as actors under the scheduler against real writers (appends, multi-append transactions,
-             rollbacks, snapshot deletions); the table content after every pointer flip is recorded by an independent
-             reader; the model's prediction -- the result equals the content at the flip count observed at the
-             reader's single pointer resolution -- is compared with what the API returned.
+             row_count, and scan / parallel scan / scan_batches / iter_records WITH a filter) run as actors under the
+             scheduler against real writers (appends, multi-append transactions, rollbacks, snapshot deletions), on tables
+             with history and on tables with NO current snapshot (racing the first commit); the table content after every
+             pointer flip is recorded by an independent reader; the model's predictions -- exactly one pointer read per
+             call; the result equals the content at the flip count observed at that resolution -- are compared with what
+             the API did and returned.
 Oracle     : the returned multiset equals the content of SOME pointer version between the call's start and its end;
              successive reads through one handle never move backwards; a multi-append transaction is seen whole or
              not at all; no read raises.
@@ -24,22 +40,46 @@ from harness.lib import protocol as P, sched as S
 from harness.props import c01
 
 LEVEL = "proof"
-THEOREMS = ["C02_snapshot_read", "C02_monotone", "C02_txn_atomic"]
+THEOREMS = ["C02_snapshot_read", "C02_read_in_progress", "C02_api_single_resolution", "C02_snapshot_read_needs_single_resolution",
+            "C02_monotone", "C02_txn_atomic"]
 MANIFEST_ENTRY = {
-    "level_text": "C02_snapshot_read / C02_monotone / C02_txn_atomic proved in Coq for every interleaving of any number of readers "
-                  "with writers that commit, fail, are interrupted, crash or roll back; every read API of the real library is "
-                  "run under the deterministic scheduler against real writers and must return exactly the content of the version "
-                  "current at its (single) pointer resolution, which the model predicts; an implementation-only oracle checks the "
-                  "property's own statement (some version between start and end; monotone per handle; transactions whole)",
-    "level_note": "trusted: Coq kernel; scheduler harness; pyarrow's thread pool in parallel scans runs inside one scheduler step "
-                  "(its workers only read immutable files after the file list is fixed); no garbage collection concurrent with "
-                  "readers (C05/C06)",
-    "technique": "Coq invariant proof (readers x writers) + scheduled differential execution of every read API",
+    "level_text": "proved in Coq for every interleaving of any number of read calls with writers that commit, fail, are interrupted, "
+                  "crash or roll back: a read call that returned resolved the pointer at one instant between its start and its end, "
+                  "none of its file reads failed, and the files it read are exactly those of the version current at that instant (so "
+                  "its rows are that snapshot's rows, for any write-once file contents) (C02_snapshot_read, C02_read_in_progress); a "
+                  "call started after another returned never resolves an earlier index (C02_monotone); the operations visible after i "
+                  "flips are the initial ones plus the transactions of exactly those flips, none twice (C02_txn_atomic).  The two code "
+                  "facts the model rests on are COUNTED on the source on every run (GenReadRes.v): every read API resolves the "
+                  "pointer exactly once (C02_api_single_resolution; with two resolutions the statement is refuted: "
+                  "C02_snapshot_read_needs_single_resolution) and one attempt of Transaction.commit reaches the commit protocol "
+                  "exactly once.  Every read API of the real library, with and without filter, on tables with history and on tables "
+                  "without current snapshot, is run under the deterministic scheduler against real writers; it must resolve the "
+                  "pointer once and return exactly the content of the version current at that resolution (model prediction), and an "
+                  "implementation-only oracle checks the property's own statement (some version between start and end; monotone per "
+                  "handle; transactions whole; no read raises)",
+    "level_note": "file contents are not in the Coq model (a file's content is a function of its fresh, write-once name; the theorems "
+                  "quantify over that function) -- that each real API returns the rows of the files it read is judged by the scheduled "
+                  "oracle, filters/pruning by C12/C13; the source count treats `if <param> is None: <param> = refresh()` as not taken when "
+                  "the caller passes its own resolution result (callers and callees golden-pinned); trusted: Coq kernel; scheduler "
+                  "harness; pyarrow's thread pool in parallel scans runs inside one scheduler step (its workers only read immutable "
+                  "files after the file list is fixed); no garbage collection concurrent with readers (C05/C06)",
+    "technique": "Coq invariant proof (readers x writers, resolution budget counted on the source) + scheduled differential "
+                 "execution of every read API",
     "design_ref": "DESIGN.md section 5 C02",
 }
 
 STATS = {"calls": 0, "calls_spanning_a_flip": 0, "resolved_after_a_flip_inside_call": 0}
 APIS = ["scan", "scan_parallel", "scan_noverify", "scan_batches", "iter_records", "row_count"]
+FILTERED_APIS = list(P.FILTERED_READ_APIS)      # the same APIs called with a filter every row satisfies (schema resolution, pruning)
+ALL_APIS = APIS + FILTERED_APIS
+
+# writers racing a reader on a table that is EMPTY (no current snapshot) when the read starts, or becomes empty meanwhile
+EMPTY_SETS = [
+    (0, [{"kind": "append", "rows": [{"x": 100}]}]),
+    (0, [{"kind": "multi_append", "batches": [[{"x": 100}], [{"x": 101}]]}]),
+    (1, [{"kind": "delete_snapshot", "which": "current"}, {"kind": "append", "rows": [{"x": 100}]}]),
+    (0, [{"kind": "append", "rows": [{"x": 100}]}, {"kind": "append", "rows": [{"x": 200}]}]),
+]
 
 
 def reader_filter(op: str, path: str, phase: tuple) -> bool:
@@ -258,6 +298,11 @@ def analyse(case: Dict[str, Any], res: P.CaseResult, readers: List[int]) -> Tupl
             # model prediction: exactly the version current at the single pointer resolution
             if faulted and call.get("extra_ptr_reads"):
                 pass        # a fault made the API resolve the pointer again: judged by the oracle above only
+            elif call.get("extra_ptr_reads"):
+                # Model/Reader.v: ONE pointer resolution per read call (GenReadRes.v: read_api_resolutions); emptiness, file
+                # list and schema all come from that one metadata object
+                bad.append({"case": c01._case_json(case), "schedule": res.schedule, "api": call["api"], "ptr_index": call["ptr"],
+                            "pointer_reads_in_call": 1 + call["extra_ptr_reads"], "model_predicts": "exactly one pointer resolution per read call"})
             elif call["ptr"] is None or want(call["ptr"]) != call["result"]:
                 bad.append({"case": c01._case_json(case), "schedule": res.schedule, "api": call["api"], "ptr_index": call["ptr"],
                             "result": call["result"], "model_predicts": want(call["ptr"]) if call["ptr"] is not None else None})
@@ -294,28 +339,87 @@ def analyse(case: Dict[str, Any], res: P.CaseResult, readers: List[int]) -> Tupl
 
 
 def run(ctx) -> None:
-    ctx.rule = ("schedules of 1-2 readers (each API, two successive calls per handle) with 1-3 writers (append, multi-append "
-                "transaction, rollback, snapshot deletion) at storage-operation granularity (pointer reads, manifest reads, data "
+    ctx.rule = ("schedules of 1-2 readers (each API with and without filter, two successive calls per handle) with 1-3 writers (append, "
+                "multi-append transaction, rollback, snapshot deletion), on tables with history and on tables without current "
+                "snapshot (first commit), at storage-operation granularity (pointer reads, manifest reads, data "
                 "file reads, all writer protocol steps); bounded-preemption enumeration + random; distinct = executed schedule")
     ctx.trusted_base += ["harness/lib/sched.py, protocol.py (per-flip table content recorded by an independent reader)"]
     ctx.assumptions += ["no garbage collection concurrent with readers (C05/C06)"]
-    ctx.proofs(THEOREMS, gen_files=["GenCommit.v"])
+    ctx.proofs(THEOREMS, gen_files=["GenCommit.v", "GenReadRes.v"])
     ctx.allow_axioms([])
+    # durability is not this property's subject (C03 / C16) and no fault is injected into fsync here: the ~16 fsyncs of every
+    # commit are skipped for the duration of the schedules (a quarter of the run time), visibility between actors is unaffected
+    import os as _os
+    real_fsync = _os.fsync
+    _os.fsync = lambda _fd: None
+    ctx.assumptions += ["os.fsync is a no-op during the scheduled runs (durability: C03/C16)"]
+    try:
+        _schedules(ctx)
+    finally:
+        _os.fsync = real_fsync
+
+
+def _schedules(ctx) -> None:
     quick = ctx.tier == "quick"
     total = 0
     bad_all: List[Dict[str, Any]] = []
     api_seen: Dict[str, int] = {}
+    import time as _time
+    t_sec = _time.time()
+    sec_s: Dict[str, float] = {}
+    # readers on a table that has NO current snapshot when the read starts (a fresh table racing its FIRST commit; a table
+    # whose only snapshot is being deleted while an append follows): every API, with and without filter; whole commits
+    # between every two consecutive storage operations of the reader + bounded-preemption enumeration
+    for ei, (nsnap, writers) in enumerate(EMPTY_SETS):
+        for ai, api in enumerate(ALL_APIS):
+            if quick and ei >= 1 and (ei + ai) % 3 != 0:
+                continue
+            ops = writers + [{"kind": "read", "apis": [api, ALL_APIS[(ai + 3) % len(ALL_APIS)]]}]
+            case = {"ops": ops, "clock": "tick", "topology": "separate", "yield_filter": reader_filter, "track_states": True,
+                    "initial_snapshots": nsnap}
+            rname = f"A{len(writers)}"
+            wnames = [f"A{i}" for i in range(len(writers))]
+            probe = P.run_case(ctx.scratch, c01._fix_case(case), between_steps_chooser(rname, 10**6, wnames), tag="c02e")
+            nr = sum(1 for a in probe.schedule if a == rname)
+            rs = list(range(1, nr + 1))
+            if quick:
+                # every step of the first call (the table has no current snapshot: few storage operations) and the first
+                # steps of the second; the rest of the second call in the thorough tier
+                first_call = 0
+                for e in probe.log:
+                    if e["actor"] == rname:
+                        first_call += 1 if reader_filter(e["op"], e["path"], tuple(e.get("phase") or ())) else 0
+                        if e["op"] == "ReadEnd":
+                            break
+                rs = rs[:min(first_call + 2, 12)]
+            eruns = [([("between", rname, r, wnames)],
+                      P.run_case(ctx.scratch, c01._fix_case(case), between_steps_chooser(rname, r, wnames), tag="c02e"))
+                     for r in rs]
+            if not quick or ai % 4 == ei % 4:
+                eruns += list(c01.explore(ctx, case, 2, 3 if quick else 40))
+            for dev, res in eruns:
+                total += 1
+                ctx.count(1, ("empty", ei, api, tuple(res.schedule)))
+                api_seen[api] = api_seen.get(api, 0) + 1
+                viol, bad = analyse(case, res, [len(writers)])
+                for v in viol:
+                    ctx.violation(f"reader-empty-table:{api}", v, {"case": c01._case_json(case), "deviations": list(dev), "schedule": res.schedule})
+                bad_all.extend(bad)
+    sec_s["empty_table"] = round(_time.time() - t_sec, 1)
+    t_sec = _time.time()
     for wi, writers in enumerate(WRITER_SETS if not quick else WRITER_SETS[:6]):
-        for ai, api in enumerate(APIS):
+        for ai, api in enumerate(ALL_APIS):
             if quick and (wi + ai) % 2 == 1:
                 continue
-            reader_ops = [{"kind": "read", "apis": [api, APIS[(ai + 1) % len(APIS)]]}]
+            if api in FILTERED_APIS and (wi + ai) % (4 if quick else 2) != 0:
+                continue        # the filtered paths differ from the unfiltered ones only in the schema resolution / pruning
+            reader_ops = [{"kind": "read", "apis": [api, ALL_APIS[(ai + 1) % len(ALL_APIS)]]}]
             ops = writers + reader_ops
             case = {"ops": ops, "clock": "tick", "topology": "separate", "yield_filter": reader_filter, "track_states": True,
                     "injectors": {i: (lambda k=op["fault"]: fault_injector(k)) for i, op in enumerate(ops) if op.get("fault")}}
             readers = [len(writers)]
             runs = []
-            for dev, res in c01.explore(ctx, case, 2, 14 if quick else 150):
+            for dev, res in c01.explore(ctx, case, 2, 14 if quick else (60 if api in FILTERED_APIS else 150)):
                 runs.append((dev, res))
             for k in range(3 if quick else 25):
                 seed = ctx.rng.randrange(1 << 30)
@@ -331,6 +435,8 @@ def run(ctx) -> None:
                     ctx.violation(f"reader:{api}:{'+'.join(o['kind'] for o in writers)}", v,
                                   {"case": c01._case_json(case), "deviations": list(dev), "schedule": res.schedule})
                 bad_all.extend(bad)
+    sec_s["interleavings"] = round(_time.time() - t_sec, 1)
+    t_sec = _time.time()
     # whole commits between two consecutive storage operations of a reader (both calls of the handle): what a handle
     # keeps between its operations -- a cached pointer, cached metadata -- must not outlive the commit
     bs_sets = [WRITER_SETS[1], WRITER_SETS[0]]
@@ -356,6 +462,8 @@ def run(ctx) -> None:
                     ctx.violation(f"reader-between-steps:{api}", v,
                                   {"case": c01._case_json(case), "deviations": [("between", rname, r, wnames)], "schedule": res.schedule})
                 bad_all.extend(bad)
+    sec_s["between_steps"] = round(_time.time() - t_sec, 1)
+    t_sec = _time.time()
     # a delete+append ("replace") transaction: one commit point; the reader between every two writer steps and after each
     for ai, api in enumerate(APIS):
         if quick and ai % 3 != 1:
@@ -369,6 +477,8 @@ def run(ctx) -> None:
         for v in viol:
             ctx.violation(f"reader-replace-txn:{api}", v, {"case": c01._case_json(case), "deviations": [("alternate", "A0", "A1")], "schedule": res.schedule})
         bad_all.extend(bad)
+    sec_s["replace_txn"] = round(_time.time() - t_sec, 1)
+    t_sec = _time.time()
     # two writers on separate handles on a clock that does not advance (every timestamp-derived name and stamp collides unless
     # something else keeps them apart), one reader reading between their steps
     two = [{"kind": "append", "rows": [{"x": 100}]}, {"kind": "multi_append", "batches": [[{"x": 200}], [{"x": 201}]]}]
@@ -396,6 +506,8 @@ def run(ctx) -> None:
                     ctx.violation(f"reader-two-writers-{clock_kind}:{api}", v,
                                   {"case": c01._case_json(case), "deviations": list(dev), "schedule": res.schedule})
                 bad_all.extend(bad)
+    sec_s["two_writers_clock"] = round(_time.time() - t_sec, 1)
+    t_sec = _time.time()
     # object store with conditional writes: the response to the pointer PUT is LOST (applied, then a timeout / 5xx on the
     # way back) or the request fails before it is applied; the reader reads after every storage operation of the writer
     for ai, api in enumerate(APIS):
@@ -419,6 +531,8 @@ def run(ctx) -> None:
                               {"case": c01._case_json(case), "deviations": [("alternate", "A0", "A1")], "schedule": res.schedule})
             # the model comparison (single pointer resolution) applies unchanged
             bad_all.extend(bad)
+    sec_s["s3_lost_response"] = round(_time.time() - t_sec, 1)
+    t_sec = _time.time()
     # faulted readers: one transient failure of the reader's nth read of each class of file while writers commit / fail
     fw_sets = [WRITER_SETS[1], WRITER_SETS[5], WRITER_SETS[0]]
     for wi, writers in enumerate(fw_sets if not quick else fw_sets[:2]):
@@ -452,6 +566,8 @@ def run(ctx) -> None:
                         ctx.violation(f"faulted-reader:{cls}:{api}", v,
                                       {"case": c01._case_json(case), "deviations": list(dev), "schedule": res.schedule})
                     bad_all.extend(bad)
+    sec_s["faulted_readers"] = round(_time.time() - t_sec, 1)
+    t_sec = _time.time()
     # two readers, three writers, random
     for k in range(6 if quick else 120):
         writers = WRITER_SETS[-1]
@@ -465,6 +581,9 @@ def run(ctx) -> None:
         for v in viol:
             ctx.violation("reader:multi", v, {"case": c01._case_json(case), "deviations": [("random", seed)], "schedule": res.schedule})
         bad_all.extend(bad)
+    sec_s["two_readers"] = round(_time.time() - t_sec, 1)
+    t_sec = _time.time()
+    ctx.stats["section_wall_s"] = sec_s
     ctx.stats["schedules"] = total
     ctx.stats["runs_per_api"] = api_seen
     ctx.stats["read_calls"] = dict(STATS)
